@@ -289,6 +289,8 @@ def make_pool(rng):
     n = int(rng.integers(6, 11))
     for i in range(n):
         m = int(rng.integers(2, 9))
+        if i == 0:
+            m = int(rng.integers(33, 61))      # one diagram of a few dozen points per pool (size-gated paths, caches for "big" inputs)
         integer = rng.random() < 0.45
         if integer:
             b = rng.integers(0, 6, m).astype(float); d = b + rng.integers(1, 7, m)
